@@ -190,6 +190,22 @@ func checkAllocators(c *Ctx, rule string) {
 			R.Check(ok, rule, "packets.AllocPacketID#range-start", rp.Ret.Pos(), core.FuncName(f), "returns Add(n)-n with n = widened maxTTL: consecutive half-open blocks of one counter", "result "+rp.Results[0].String()+" is not Add(n)-n with n the widened maxTTL")
 		}
 	}
+	// the echo id handed out is the counter value itself: no post-processing that could map two counter values to one id
+	if ne := c.P.Func("icmp.nextEchoID"); ne == nil {
+		R.Fail(rule, "icmp.nextEchoID#anchor", 0, "", "anchor icmp.nextEchoID no longer resolves")
+	} else {
+		rps, _ := core.ReturnPaths(c.P, ne, 100)
+		ok := len(rps) == 1
+		desc := ""
+		for _, rp := range rps {
+			r := rp.Results[0].StripConv()
+			desc = rp.Results[0].String()
+			if !(r.Op == "call" && strings.HasSuffix(r.Name, ".Add") && len(rp.Atoms) == 0) {
+				ok = false
+			}
+		}
+		R.Check(ok, rule, "icmp.nextEchoID#result", ne.Pos(), core.FuncName(ne), "the echo id is the atomically incremented counter itself (mod 2^16)", fmt.Sprintf("the echo id is post-processed after the atomic increment (%d return paths, e.g. %s): two allocations can yield the same identifier while fewer than 65536 are live", len(rps), desc))
+	}
 	// SYN driver ids are base + widen(ttl) with base from AllocPacketID(MaxTTL)
 	g := c.P.Func("(*tcp.tcpDriver).getNextPacketIDAndSeqNum")
 	if g == nil {
